@@ -26,6 +26,8 @@ def run(chk, tier):
     from ..rules import sibs as _SB
     _SB.check(chk, db, ['_set/', '_flat_set/'])      # SIB: cv/ref-qualified overloads of one member agree
     _SB.positive_control(chk)
+    from ..rules import initform as _IF
+    _IF.check(chk, db, ['_set/', '_flat_set/'])      # INITFORM: emplace direct-non-list-initialises the key
     totals = {}
     for rq, needs_full in SETS.items():
         if not db.rec_by_q.get(rq):
